@@ -294,6 +294,7 @@ func run(c *Ctx) {
 	im.Count("probe negative-cost updates", true)
 	tickTruth(c, im)
 	silentCrashHistory(c, im)
+	silentLinkHistory(c, im)
 	lateHandshakeHistory(c, im)
 	meshHistories(c, im)
 	Must(cf.Write())
@@ -608,6 +609,47 @@ func silentCrashHistory(c *Ctx, im *Impl) {
 			im.Sample(rec)
 		}
 	}
+}
+
+// silentLinkHistory: a link fails without a trace - both sessions stay open but nothing arrives any more (a
+// cable pulled behind a switch).  Only the idle limit ends such a connection: within the limit plus the
+// monitor's 5 s period plus the usual bound every table must route around the dead link.
+func silentLinkHistory(c *Ctx, im *Impl) {
+	consts := FastConsts()
+	consts.RouteUpdate = 100 * time.Millisecond
+	consts.MaxIdle = 2500 * time.Millisecond // longer than the 1 s receive timeout of the session reader
+	m := NewMesh(consts)
+	tp := &topo{names: []string{"m0", "m1", "m2"}, edges: map[[2]int]float64{{0, 1}: 1, {0, 2}: 1, {1, 2}: 1}}
+	alive := map[string]bool{"m0": true, "m1": true, "m2": true}
+	for _, id := range tp.names {
+		m.AddNode(id)
+	}
+	dead, err := m.Connect("m0", "m1", 1)
+	Must(err)
+	_, err = m.Connect("m0", "m2", 1)
+	Must(err)
+	_, err = m.Connect("m1", "m2", 1)
+	Must(err)
+	rec := map[string]interface{}{"nodes": 3, "events": []string{"triangle", "link m0-m1 goes silent in both directions, sessions stay open"}}
+	if !WaitFor(12*consts.RouteUpdate+time.Second, func() bool { return meshAgrees(m, tp.graphOf(alive), alive, nil) }) {
+		im.Violate("a triangle did not converge", "mesh-not-converged", rec)
+		m.Shutdown()
+		return
+	}
+	dead.EndA.SetSilent(true)
+	dead.EndB.SetSilent(true)
+	delete(tp.edges, [2]int{0, 1})
+	g := tp.graphOf(alive)
+	bound := consts.MaxIdle + 5*time.Second + 12*consts.RouteUpdate + 2*time.Second
+	if !WaitFor(bound, func() bool { return meshAgrees(m, g, alive, nil) }) {
+		var why []string
+		meshAgrees(m, g, alive, &why)
+		im.Violate(fmt.Sprintf("a link that went silent (sessions open, nothing arriving) is still used %v later, idle limit %v: %s", bound, consts.MaxIdle, strings.Join(why, "; ")),
+			"mesh-not-converged", rec)
+	}
+	m.Shutdown()
+	im.Hist("mesh:silent-link-idle-timeout")
+	im.Count("mesh silent link", true)
 }
 
 // lateHandshakeHistory: a new link between two nodes that already reach each other through a third, whose
